@@ -421,9 +421,12 @@ class RefEval:
             kind, pname = p[0], p[1]
             if kind == "ref":
                 # a is ('Ref', var)
-                if a[0] != "Ref":
+                if a[0] == "PRef":
+                    nf.params[pname] = fr.params[a[1]]
+                elif a[0] != "Ref":
                     raise HarnessError("by-ref argument must be ('Ref', var)")
-                nf.params[pname] = (self._cell(a[1], fr), a[1])
+                else:
+                    nf.params[pname] = (self._cell(a[1], fr), a[1])
             else:
                 nf.params[pname] = self.ev(a, fr)
         self.depth += 1
